@@ -42,7 +42,8 @@ def gen_shrink_case(rng, i):
     (what the formatter then does depends on its options, e.g. skip-magic-trailing-comma)"""
     n = rng.randint(18, 30)
     old = [rng.randint(100000, 999999) for _ in range(n)]
-    new = old[: rng.randint(1, 3)]
+    k = rng.randint(1, 3)
+    new = rng.choice([old[:k], old[-k:], [old[0], old[-1]]])      # keeping the last element keeps the trailing comma of the exploded display
     kind = rng.choice(["list", "tuple", "dict"])
     if kind == "dict":
         olds, news = repr({f"k{j}": v for j, v in enumerate(old)}), repr({f"k{j}": v for j, v in enumerate(new)})
